@@ -114,6 +114,11 @@ let build_fixture r : fx =
         let dnode = base + 41 in
         let docs_rows = List.init 3 (fun i ->
             [ DFixed (le32 (i + 1)); vl (jsonb_object (gen_doc r)); vl (bs (Printf.sprintf "note %d: the %s and the %s" i (pick r words) (pick r words))) ]) in
+        (* two empty objects and an empty array: every decoded container is the caller's own (seeded change C11-16: one
+           shared map for all empty objects) *)
+        let docs_rows = docs_rows @ List.mapi (fun i hdr ->
+            [ DFixed (le32 (i + 4)); vl (le32 hdr); vl (bs (Printf.sprintf "note %d: nothing but %s" (i + 3) (pick r words))) ])
+            [ 0x20000000; 0x20000000; 0x40000000 ] in
         let docs_heap = one_page r (List.map (live_item r) docs_rows) in
         let class_extra = shuffle r (List.map (fun (n, node) -> crow n node 'S') seqs @ [ crow (Printf.sprintf "pg_toast_%d" dnode) tnode 't'; { (crow "docs" dnode 'r') with cr_oid = zi (base + 40) } ]) in
         let arow n typ len al num : attrow = { ar_relid = zi (base + 40); ar_name = bs n; ar_typid = zi typ; ar_len = zi len; ar_num = zi num; ar_align = zi al;
@@ -191,6 +196,11 @@ let ops_for (f : fx) ~(m : string) ~(cli : bool) ~(cli_reps : int) =
   rep ~need:1 "search" ~tag:"search_max1" (hx "note|alpha|beta|password" ^ "|1|0");
   rep ~need:4 "search" ~tag:"search_max4" (hx "note|alpha|beta|password" ^ "|4|1");
   rep ~reps:3 ~need:0 "scan_secrets" "-";
+  rep ~need:2 "quick_search" (hx "note");
+  rep ~reps:3 ~need:0 "scan_for_secrets" "-";
+  rep ~need:3 "scan_all_deleted" "-";
+  rep ~need:3 "write_csv_file" "-";
+  List.iter (fun (d : dbx) -> rep ~need:0 "analyze_toast" (hx d.name)) f.dbs;
   rep ~need:3 "remote_dumpall" "-";
   List.iter (fun (d : dbx) -> rep ~need:5 "remote_tables" (string_of_int d.oid)) f.dbs;
   rep ~need:5 "remote_tables_by_name" (hx d0.name);
@@ -297,6 +307,14 @@ let gen seed n =
     let cli = k mod 6 = 0 in
     ops_for f ~m ~cli ~cli_reps:10;
     if cli then emit_cli_class f;
+    (* a TOAST relation with more than 1000 values (1100 one-chunk values on 8 pages): listings are complete and in chunk-id
+       order whatever their length (seeded change C11-18: a cap applied while ranging over the map) *)
+    if k = 0 then begin
+      let rows = shuffle r (List.init 1100 (fun i -> [ DFixed (le32 (500000 + i * 3)); DFixed (le32 0); vl (rbytes r (1 + rint r 6)) ])) in
+      let rec pages l = if l = [] then [] else take 150 l :: pages (List.filteri (fun i _ -> i >= 150) l) in
+      let data = enc_heap toast_cols idds (List.map (fun rs -> HPage (mkpage r (List.map (live_item r) rs))) (pages rows)) in
+      emit_repeat { f with files = [ ("big/77", data) ] } ~m ~need:1100 "toast_verbose" ~tag:"toast_verbose_many" "big/77|77"
+    end;
     (* the concurrent mix: 2..32 goroutines *)
     let ng = if k = 0 then 8 else pick r [| 2; 3; 4; 8; 16; 32 |] in
     emit ~fn:"Concurrent" ~tag:(Printf.sprintf "g%d" ng) ~s:det ~m
